@@ -160,12 +160,9 @@ impl<Wr: Write> Serializer for XmlSerializer<Wr> {
                 }
 
                 self.writer.write_all(b"=\"")?;
-                let url = if let Some(ref a) = *url_opt {
-                    a.as_bytes()
-                } else {
-                    b""
-                };
-                self.writer.write_all(url)?;
+                if let Some(ref url) = *url_opt {
+                    write_to_buf_escaped(&mut self.writer, url, true)?;
+                }
                 self.writer.write_all(b"\"")?;
             }
         }
